@@ -285,7 +285,7 @@ def check_self(case, stats: Stats) -> None:
 
 SUBS = [
     Sub(name="direct", check=check_direct, strategy=lambda tier: collections(tier), n={"quick": 2500, "thorough": 6000},
-        required_classes=("direct:outcome:ok", "direct:outcome:DuplicateURIPrefixes", "direct:outcome:DuplicatePrefixes", "nt:clash-both-sides", "nt:clash-only-via-synonym", "nt:valid-3plus-with-synonyms")),
+        required_classes=("direct:outcome:ok", "direct:outcome:DuplicateURIPrefixes", "direct:outcome:DuplicatePrefixes", "nt:clash-both-sides", "nt:clash-only-via-synonym")),
     Sub(name="loaders", check=check_loader, strategy=lambda tier: loader_inputs(tier), n={"quick": 1500, "thorough": 4000},
         required_classes=("loader:prefix_map", "loader:priority", "loader:reverse", "loader:jsonld")),
     Sub(name="self_synonym", check=check_self, strategy=lambda tier: self_synonym_records(tier), n={"quick": 600, "thorough": 2000},
